@@ -579,6 +579,26 @@ func (env *SpecEnv) evalCall(e *SExpr) TV {
 				return TV{Eq(Select(vc.ghostArr(env.st, name), ref), IntLit(0)), types.Typ[types.Bool]}
 			}
 			return TV{Select(vc.ghostArr(env.st, name), ref), types.Typ[types.Int]}
+		case "wfPEG":
+			// the parser's syntax tree obeys the grammar's child-sequence automata; token ranges lie in p.buffer
+			if len(e.Args) == 0 {
+				return TV{env.pegAxioms(Const("peg.buflen", SInt)), B}
+			}
+			buf := env.eval(&SExpr{K: "sel", X: e.Args[0], Name: "buffer"})
+			return TV{And(env.pegAxioms(Const("peg.buflen", SInt)), Eq(Const("peg.buflen", SInt), sliceLen(buf.T))), B}
+		case "pegst":
+			x := env.eval(e.Args[0])
+			return TV{App("peg.st", SInt, x.T), types.Typ[types.Int]}
+		case "pegowner":
+			x := env.eval(e.Args[0])
+			return TV{App("peg.owner", SInt, App("peg.st", SInt, x.T)), types.Typ[types.Int]}
+		case "pegnext":
+			x := env.eval(e.Args[0])
+			r := env.eval(e.Args[1])
+			return TV{App("peg.only", SBool, App("peg.st", SInt, x.T), r.T), B}
+		case "pegacc":
+			x := env.eval(e.Args[0])
+			return TV{App("peg.acc", SBool, App("peg.st", SInt, x.T)), B}
 		case "prefixof":
 			a := env.eval(e.Args[0])
 			b := env.eval(e.Args[1])
